@@ -78,6 +78,23 @@ MCWorldsRnd == {%s}
 ====
 """
 
+# MOCKERY_* variables present while `mockery init` runs (load / run always get a clean environment)
+ENVS = {
+    "none": {},
+    "loglevel": {"MOCKERY_LOG_LEVEL": "debug"},
+    "dir": {"MOCKERY_DIR": "envmocks/{{.SrcPackageName}}"},
+    "filename": {"MOCKERY_FILENAME": "env_mocks.go"},
+    "force": {"MOCKERY_FORCE_FILE_WRITE": "true"},
+    "all": {"MOCKERY_ALL": "True"},
+    "template": {"MOCKERY_TEMPLATE": "matryer"},
+    "config": {"MOCKERY_CONFIG": "envconf.yml"},
+    "buildtags": {"MOCKERY_BUILD_TAGS": "envtag"},
+    "unknown": {"MOCKERY_NOT_A_PARAMETER": "x"},
+    "several": {"MOCKERY_LOG_LEVEL": "warn", "MOCKERY_DIR": "envmocks", "MOCKERY_FORCE_FILE_WRITE": "true",
+                "MOCKERY_RECURSIVE": "true", "MOCKERY_PKGNAME": "envpkg", "MOCKERY_CONFIG": "other/envconf.yml"},
+    "lower": {"MOCKERY_Log_Level": "trace", "MOCKERY_Formatter": "gofmt"},
+}
+
 ROOT_GO = """package root
 
 type R interface{ F(x int) string }
@@ -205,8 +222,8 @@ class Runner:
         self.twins = {}
         self.lock = threading.Lock()
 
-    def mockery(self, cwd, args, trace_file=None, timeout=120):
-        e = go_env()
+    def mockery(self, cwd, args, trace_file=None, timeout=120, env=None):
+        e = go_env(env)
         if trace_file:
             e["VERIFHOOK_TRACE"] = str(trace_file)
         t = time.time()
@@ -359,11 +376,11 @@ def replay_case(ctx, run, idx, case):
         tf = ctx.scratch / "worlds" / f"w{idx}.trace{j}"
         if o["op"] == "init":
             s = pkg_string(world, o["pkg"])
-            code, out, err, hev, wall = run.mockery(cwd, pre + ["init"] + post + ["--", s], tf)
+            code, out, err, hev, wall = run.mockery(cwd, pre + ["init"] + post + ["--", s], tf, env=ENVS[case.get("env", "none")])
             after = snapshot(target)
             created = after != before and pres != "yes" and os.path.isfile(target)
             ev = {"op": "init", "case": idx, "pkg": s, "exit": code, "before": before, "after": after,
-                  "presence": pres, "created": created}
+                  "presence": pres, "created": created, "env": sorted(ENVS[case.get("env", "none")])}
             ob = {"ok": code == 0, "after": "same" if after == before else ("created" if created else "changed")}
         elif o["op"] == "load":
             code, out, err, hev, wall = run.mockery(cwd, pre + post + ["showconfig"], tf)
@@ -404,7 +421,7 @@ def judge_case(ctx, idx, case, obs):
     world = case["world"]
     for j, (o, ob) in enumerate(zip(case["ops"], obs)):
         base = {"op": o["op"], "world_class": "main" if world == "main" else world[0], "cfg": case["cfg"],
-                "start": case["start"], "pkg_id": o["pkg"], "step": j,
+                "start": case["start"], "env": case.get("env", "none"), "pkg_id": o["pkg"], "step": j,
                 "str_class": str_class(pkg_string(world, o["pkg"])) if o["pkg"] != "-" else "-"}
         det = {"case": case, "step": j, "observed": {k: v for k, v in ob.items() if k != "hook"}, "pkg_string": pkg_string(world, o["pkg"]) if o["pkg"] != "-" else None,
                "module": module_of(world)}
@@ -565,12 +582,12 @@ def run(ctx):
         keyed[json.dumps(c, sort_keys=True)] = c
     cases = list(keyed.values())
     def opkey(c):
-        return (c["world"], c["cfg"], c["start"], tuple(json.dumps(o, sort_keys=True) for o in c["ops"]))
+        return (c["world"], c["cfg"], c["start"], c.get("env", "none"), tuple(json.dumps(o, sort_keys=True) for o in c["ops"]))
     keys = {opkey(c) for c in cases}
     prefixes = set()
     for k in keys:
-        for n in range(1, len(k[3])):
-            prefixes.add((k[0], k[1], k[2], k[3][:n]))
+        for n in range(1, len(k[4])):
+            prefixes.add((k[0], k[1], k[2], k[3], k[4][:n]))
     n_transitions = len(cases)
     cases = [c for c in cases if opkey(c) not in prefixes]
     if len(cases) < 200:
@@ -587,6 +604,9 @@ def run(ctx):
         "judged load of an odd string": lambda c: any(o["op"] == "load" and o["expect"]["judged"] and o["pkg"].startswith("w_") for o in c["ops"]),
         "YAML-significant module path run": lambda c: c["world"].startswith("m_") and any(o["op"] == "run" and o["expect"]["judged"] and o["pkg"] == "root" for o in c["ops"]),
         "missing parent directory": lambda c: c["cfg"] == "missing",
+        "init under MOCKERY_* variables, judged load": lambda c: c.get("env", "none") != "none" and any(o["op"] == "load" and o["expect"]["judged"] for o in c["ops"]),
+        "init under MOCKERY_* variables, judged run": lambda c: c.get("env", "none") != "none" and any(o["op"] == "run" and o["expect"]["judged"] for o in c["ops"]),
+        "init under MOCKERY_CONFIG": lambda c: c.get("env") in ("config", "several") and any(o["op"] == "init" and o["ok"] for o in c["ops"]),
         "dangling link": lambda c: c["start"] == "dangling",
         "directory at the target": lambda c: c["start"] in ("dir", "dirfull"),
     }
@@ -594,6 +614,9 @@ def run(ctx):
         if not has(pred):
             raise MachineryError(f"vacuous: no exported history with: {name}")
     used_ids = {o["pkg"] for c in cases for o in c["ops"] if o["pkg"] not in ("-", "root", "sub")}
+    unknown_env = {c.get("env", "none") for c in cases} - set(ENVS)
+    if unknown_env:
+        raise MachineryError(f"environment classes without a concretisation: {unknown_env}")
     unknown = used_ids - set(WEIRD)
     if unknown:
         raise MachineryError(f"package ids without a concretisation: {unknown}")
@@ -655,7 +678,7 @@ def run(ctx):
             elif diff_eff:
                 kind, why = "defaults-in-effect", diff_eff
         sig = {"kind": kind, "op": at["op"], "world_class": "main" if c["world"] == "main" else c["world"][0],
-               "cfg": c["cfg"], "start": c["start"], "pkg_id": o["pkg"], "step": step,
+               "cfg": c["cfg"], "start": c["start"], "env": c.get("env", "none"), "pkg_id": o["pkg"], "step": step,
                "str_class": str_class(pkg_string(c["world"], o["pkg"])) if o["pkg"] != "-" else "-"}
         if why:
             sig["keys"] = ",".join(sorted(why))
@@ -683,7 +706,7 @@ def run(ctx):
     # ---------------------------------------------------------------- evidence
     mid = len(cases) // 2
     for i in (0, mid, len(cases) - 1):
-        ctx.sample({"case": {k: cases[i][k] for k in ("world", "cfg", "start")},
+        ctx.sample({"case": {k: cases[i].get(k) for k in ("world", "cfg", "start", "env")},
                     "ops": [{"op": o["op"], "pkg": pkg_string(cases[i]["world"], o["pkg"]) if o["pkg"] != "-" else None} for o in cases[i]["ops"]],
                     "op_log": by_case[i][1:]})
     for i, c in enumerate(cases):
